@@ -1,7 +1,8 @@
 // C10 -- part 2 of 3 (flavour san: clang ASan + UBSan): (c) every short byte string offered to every text parser.
 //
-// Space: every byte string of length <= 2 (65 793) and every string of length 3 over a 64-byte alphabet (quick) /
-// all 2^24 strings of length 3 (thorough), each offered to
+// Spaces: every byte string of length <= 2 (65 793); every string of length 3 over a 64-byte (thorough 96-byte)
+// alphabet; thorough also all 2^24 strings of length 3 through DMS::Decode; pumped token strings p w^k q (repetition
+// reaches the states that need many components).  Each string is offered to
 //   DMS::Decode, DecodeAngle, DecodeAzimuth, DecodeLatLon (as first and as second argument, partner "7"),
 //   Utility::val<double|int|bool>, fract<double>, nummatch<double>, ParseLine (blank and '=' delimiter),
 //   GeoCoords::Reset(string).
@@ -51,7 +52,7 @@ struct Rec {
   int ind;
   double v[NCALL], lat[2], lon[2];
 };
-struct Shm { volatile long cur; volatile long done; volatile int call; Rec rec[1]; };
+struct Shm { volatile long cur; volatile long done; volatile int call; volatile unsigned mask; Rec rec[1]; };
 static volatile int* g_call = nullptr;        // entry point being executed (child side)
 #define AT(c) do { if (g_call) *g_call = (c); } while (0)
 
@@ -64,13 +65,13 @@ template <class F> static unsigned char guard(F f) {
 }
 // runs entry points from_call.. on s; a fresh record is started when from_call == 0 (after the death of a child the
 // same string is resumed behind the entry point that died)
-static void run_string(const std::string& s, Rec& r, int from_call) {
+static void run_string(const std::string& s, Rec& r, int from_call, unsigned mask) {
   if (from_call == 0) {
     memset(&r, 0, sizeof r);
     for (int i = 0; i < NCALL; ++i) { r.v[i] = SENT; r.oc[i] = 4; }          // 4 = not executed / died
     r.lat[0] = r.lon[0] = r.lat[1] = r.lon[1] = SENT; r.ind = FSENT;
   }
-  auto go = [&](int c) { if (c < from_call) return false; AT(c); return true; };
+  auto go = [&](int c) { if (c < from_call || !(mask >> c & 1)) return false; AT(c); return true; };
   if (go(C_DECODE)) { DMS::flag f = DMS::flag(FSENT); r.oc[C_DECODE] = guard([&] { double v = DMS::Decode(s, f); r.v[C_DECODE] = v; }); r.ind = int(f); }
   if (go(C_ANGLE)) r.oc[C_ANGLE] = guard([&] { double v = DMS::DecodeAngle(s); r.v[C_ANGLE] = v; });
   if (go(C_AZI)) r.oc[C_AZI] = guard([&] { double v = DMS::DecodeAzimuth(s); r.v[C_AZI] = v; });
@@ -211,7 +212,7 @@ struct Exec {
   }
   // runs all strings; calls sink(i, rec, deaths) once per string, in order.  deaths lists the entry points in which a
   // child died while executing string i (the string is resumed behind that entry point in a new child).
-  template <class Sink> void run(const std::vector<std::string>& strs, Sink sink) {
+  template <class Sink> void run(const std::vector<std::string>& strs, unsigned mask, Sink sink) {
     ensure(strs.size());
     if (errfd < 0) { errfd = memfd_create("c10-child-stderr", 0); if (errfd < 0) { perror("memfd_create"); exit(2); } }
     size_t next = 0, n = strs.size(); int from_call = 0;
@@ -227,7 +228,7 @@ struct Exec {
         alarm(900);
         dup2(errfd, 2);
         g_call = &shm->call;
-        for (size_t i = next; i < n; ++i) { shm->cur = (long)i; run_string(strs[i], shm->rec[i], i == next ? from_call : 0); shm->done = (long)i + 1; }
+        for (size_t i = next; i < n; ++i) { shm->cur = (long)i; run_string(strs[i], shm->rec[i], i == next ? from_call : 0, mask); shm->done = (long)i + 1; }
         _exit(0);
       }
       int st = 0; while (waitpid(pid, &st, 0) < 0 && errno == EINTR) {}
@@ -280,9 +281,11 @@ int main(int argc, char** argv) {
   const bool T = ctx.thorough();
   ctx.note("value tolerance: 4 ulp of the sum of the pieces' magnitudes, plus 1 ulp per integer digit beyond 15 in a component (the accuracy of over-long numerals is not documented)");
   Exec ex;
-  uint64_t nstr = 0;
-  auto unit = [&](const std::vector<std::string>& strs) {
-    ex.run(strs, [&](size_t i, const Rec& r, const std::vector<Death>& deaths) {
+  uint64_t nstr = 0, ncalls = 0;
+  const unsigned ALL = (1u << NCALL) - 1, DECODE_ONLY = 1u << C_DECODE;
+  auto unit = [&](const std::vector<std::string>& strs, unsigned mask = (1u << NCALL) - 1) {
+    ncalls += strs.size() * (uint64_t)__builtin_popcount(mask);
+    ex.run(strs, mask, [&](size_t i, const Rec& r, const std::vector<Death>& deaths) {
       Ctx::Case cs(ctx);
       ++nstr;
       for (const Death& d : deaths) {
@@ -308,17 +311,25 @@ int main(int argc, char** argv) {
   if (ctx.take()) unit({std::string()});
 
   ctx.sub("bytes3");
-  std::string A;
-  if (T) { for (int i = 0; i < 256; ++i) A += char(i); }
-  else {
-    A = std::string("01569.:dD*'`\"+-NSEWnsew \t\n/#=aifAIFxtyo,rul2\r") + std::string("\xb0\xba\xb4\xa0\xc2\xe2\x80\x81\x88\xb2\xb3\x92\xcb\x9a\xca\xb9\xff\x7f") + std::string(1, '\0');
-  }
-  ctx.bound("bytes3", T ? "all 2^24 byte strings of length 3 x 13 parser entry points" : "all strings of length 3 over a " + fmti((long long)A.size()) + "-byte alphabet (digits, DMS punctuation, hemisphere letters, blanks, / # =, nan/inf/bool letters, 0x00 0x7f 0x80 0xc2 0xe2 0xff and the continuation bytes of the documented symbols) x 13 parser entry points");
+  // quick alphabet (64 bytes) is a prefix of the thorough alphabet (96 bytes)
+  std::string A = std::string("01569.:dD*'`\"+-NSEWnsew \t\n/#=aifAIFxtyo,rul2\r") + std::string("\xb0\xba\xb4\xa0\xc2\xe2\x80\x81\x88\xb2\xb3\x92\xcb\x9a\xca\xb9\xff\x7f") + std::string(1, '\0');
+  if (T) A += std::string("3478bcBCmMzZ_;!%()<>[]|\\") + std::string("\x98\x99\x9b\x9c\x9d\x9f\x87\x89");
+  ctx.bound("bytes3", "all strings of length 3 over a " + fmti((long long)A.size()) + "-byte alphabet (digits, DMS punctuation, hemisphere letters, blanks, / # =, nan/inf/bool letters, 0x00 0x7f 0x80 0xc2 0xe2 0xff and the continuation bytes of the documented symbols" + (T ? "; thorough adds more digits, letters, punctuation and continuation bytes" : "") + ") x 13 parser entry points");
   for (size_t i = 0; i < A.size(); ++i) {
     if (!ctx.take()) continue;
     std::vector<std::string> strs; strs.reserve(A.size() * A.size());
     for (size_t j = 0; j < A.size(); ++j) for (size_t k = 0; k < A.size(); ++k) { std::string s; s += A[i]; s += A[j]; s += A[k]; strs.push_back(s); }
     unit(strs);
+  }
+  // every 3-byte string through the symbol-substitution machinery of Decode (the other entry points see nothing new in
+  // bytes outside the alphabet above)
+  ctx.sub("bytes3-all-decode");
+  ctx.bound("bytes3-all-decode", T ? "all 2^24 byte strings of length 3 x DMS::Decode" : "thorough tier only (quick covers Decode on the 64-byte alphabet in bytes3)");
+  if (T) for (int b = 0; b < 256; ++b) {
+    if (!ctx.take()) continue;
+    std::vector<std::string> strs; strs.reserve(65536);
+    for (int c = 0; c < 256; ++c) for (int d = 0; d < 256; ++d) { std::string s; s += char(b); s += char(c); s += char(d); strs.push_back(s); }
+    unit(strs, DECODE_ONLY);
   }
   // ---- pumped token strings: p w^k q
   {
@@ -337,6 +348,6 @@ int main(int argc, char** argv) {
       unit(strs);
     }
   }
-  ctx.count("strings", nstr); ctx.count("parser_calls", nstr * NCALL); ctx.count("forks", ex.forks);
+  ctx.count("strings", nstr); ctx.count("parser_calls", ncalls); ctx.count("forks", ex.forks);
   return ctx.finish();
 }
